@@ -97,6 +97,10 @@ func buildAsyncProxy(shards [][]string, desc bool, hi uint64) (*search.Ingestor,
 func splitShards(s string) [][]string {
 	var res [][]string
 	for _, sh := range strings.Split(s, "|") {
+		if sh == "z" { // a shard configured without any replica
+			res = append(res, nil)
+			continue
+		}
 		res = append(res, strings.Split(sh, "+"))
 	}
 	return res
@@ -121,13 +125,20 @@ func runPFetch(line string) (res string) {
 	return fmt.Sprintf("ok %s %s/%d/%s", vh.B(resp.Done), fmtIDs(q.IDs), q.Total, fmtHist(q.Histogram))
 }
 
-func runPStart(line string) string {
+func runPStart(line string) (res string) {
+	defer func() {
+		if r := recover(); r != nil {
+			res = "panic"
+		}
+	}()
 	f := strings.Fields(line)
 	var shards [][]string
 	for _, sh := range strings.Split(f[1], "|") {
 		var reps []string
-		for _, c := range sh {
-			reps = append(reps, string(c))
+		if sh != "z" {
+			for _, c := range sh {
+				reps = append(reps, string(c))
+			}
 		}
 		shards = append(shards, reps)
 	}
@@ -142,6 +153,9 @@ func runPStart(line string) string {
 		bits := ""
 		for r := range reps {
 			bits += vh.B(was[fmt.Sprintf("s%d-r%d", s, r)])
+		}
+		if len(reps) == 0 {
+			bits = "z"
 		}
 		parts = append(parts, bits)
 	}
@@ -181,9 +195,15 @@ func genProxyAsync(g gen, chF, chS *vh.Channel, orc *vh.Oracle, rep *vh.Report, 
 			}
 			shards = append(shards, strings.Join(reps, "+"))
 		}
+		if g.r.Chance(1, 12) { // degenerate stores configuration: a shard without replicas
+			shards[g.r.Intn(len(shards))] = "z"
+		}
 		line := fmt.Sprintf("pfetch %s %d %d %s", vh.B(desc), size, hi, strings.Join(shards, "|"))
 		got := runPFetch(line)
-		chF.Add(line, got, nsh > 1 && strings.HasPrefix(got, "ok"), "answer="+strings.Fields(got)[0]+"-"+strings.Fields(got)[1], fmt.Sprintf("shards=%d", nsh))
+		if strings.Contains(line, "z") {
+			chF.Tag("empty-shard-" + strings.Fields(got)[0])
+		}
+		chF.Add(line, got, nsh > 1 && strings.HasPrefix(got, "ok"), "answer="+strings.Fields(got + " -")[0]+"-"+strings.Fields(got + " -")[1], fmt.Sprintf("shards=%d", nsh))
 		// (b) the property: every shard has one accepting replica
 		shards = shards[:0]
 		allDone, allAnswer := true, true
@@ -251,6 +271,9 @@ func genProxyAsync(g gen, chF, chS *vh.Channel, orc *vh.Oracle, rep *vh.Report, 
 			bits := ""
 			for r := 0; r < g.r.Range(1, 3); r++ {
 				bits += vh.B(g.r.Chance(3, 5))
+			}
+			if g.r.Chance(1, 12) {
+				bits = "z"
 			}
 			sb = append(sb, bits)
 		}
